@@ -81,11 +81,24 @@ func fullDecls(S *Sorts, prelude string, ifaceFns map[string]types.Type) string 
 			fmt.Fprintf(&b, "(assert (forall ((d (Array %s Bool)) (k %s)) (! (=> (fin<%s> d) (and (fin<%s> (store d k true)) (= (setcard<%s> (store d k true)) (+ (setcard<%s> d) (ite (select d k) 0 1))))) :pattern ((store d k true)))))\n", k, k, kt, kt, kt, kt)
 			fmt.Fprintf(&b, "(assert (forall ((d (Array %s Bool)) (k %s)) (! (=> (fin<%s> d) (and (fin<%s> (store d k false)) (= (setcard<%s> (store d k false)) (- (setcard<%s> d) (ite (select d k) 1 0))))) :pattern ((store d k false)))))\n", k, k, kt, kt, kt, kt)
 			fmt.Fprintf(&b, "(assert (forall ((d (Array %s Bool)) (k %s)) (! (=> (and (fin<%s> d) (select d k)) (>= (setcard<%s> d) 1)) :pattern ((select d k) (setcard<%s> d)))))\n", k, k, kt, kt, kt)
+			// subset predicate with witness function, and the finite-set lemma: a subset of equal cardinality is the whole set
+			fmt.Fprintf(&b, "(declare-fun sub<%s> ((Array %s Bool) (Array %s Bool)) Bool)\n(declare-fun subw<%s> ((Array %s Bool) (Array %s Bool)) %s)\n", kt, k, k, kt, k, k, k)
+			fmt.Fprintf(&b, "(assert (forall ((a (Array %s Bool)) (b (Array %s Bool)) (k %s)) (! (=> (and (sub<%s> a b) (select a k)) (select b k)) :pattern ((sub<%s> a b) (select a k)))))\n", k, k, k, kt, kt)
+			fmt.Fprintf(&b, "(assert (forall ((a (Array %s Bool)) (b (Array %s Bool))) (! (or (sub<%s> a b) (and (select a (subw<%s> a b)) (not (select b (subw<%s> a b))))) :pattern ((sub<%s> a b)))))\n", k, k, kt, kt, kt, kt)
+			fmt.Fprintf(&b, "(assert (forall ((a (Array %s Bool)) (b (Array %s Bool))) (! (=> (and (fin<%s> a) (fin<%s> b) (sub<%s> a b) (= (setcard<%s> a) (setcard<%s> b))) (= a b)) :pattern ((sub<%s> a b)))))\n", k, k, kt, kt, kt, kt, kt, kt)
 		}
 		fmt.Fprintf(&b, "(define-fun %s.ok ((m %s)) Bool (and (fin<%s> (%s.dom m)) (= (%s.card m) (setcard<%s> (%s.dom m)))))\n", n, n, kt, n, n, kt, n)
 		if _, ok := S.heaps[n]; ok {
 			fmt.Fprintf(&b, "(assert (and (= (%s.card (select F.%s 0)) 0) (= (%s.dom (select F.%s 0)) empty<%s>)))\n", n, n, n, n, kt)
 		}
+	}
+	var zs []string
+	for z := range S.zarrs {
+		zs = append(zs, z)
+	}
+	sort.Strings(zs)
+	for _, z := range zs {
+		fmt.Fprintf(&b, "(declare-const %s (Array Int %s))\n(assert (forall ((i Int)) (! (= (select %s i) %s) :pattern ((select %s i)))))\n", z, S.zarrs[z][0], z, S.zarrs[z][1], z)
 	}
 	var ks []string
 	for k := range ifaceFns {
